@@ -138,3 +138,13 @@ claim('C17',
       'magnitudes < 2^64; float/double (big.Float gob encoding) and the decimal TEXT of numbers (strconv/fmt) are outside; leaf-lists not yet '
       'covered. Trusted: go/ssa, executor, z3.',
       'SSA symbolic execution + SMT (z3) over 64-bit bit-vectors', 'DESIGN.md 6/C17')
+claim('C04',
+      'Histories of Sets (same 7-node universe and case-split operations as C03, written values symbolic) are committed AND applied through the '
+      'REAL proposal reconcileCommit/reconcileApply (AddDeleteChildren, PrunePathValues, PathValuesToGnmiChange), the REAL configuration store over '
+      'stub atomix maps and a gNMI device model (deletes at element boundaries, then updates); then the device restarts empty, a new mastership '
+      'term begins and the REAL configuration controller re-pushes: z3 proves the device holds exactly the stored live leaves with their values '
+      'both after the applies and after the re-push. The protocol side (re-push before any new change in a term, election ids) is decided on the '
+      'extracted transition relation by C10.',
+      'One operation per Set, history 1..2 (quick) / 3 (thorough); device reachable during the history (offline / later connection is covered by '
+      'the C02/C10 transition-system checks); atomix map contract stubbed. Trusted: go/ssa, executor, z3.',
+      'SSA symbolic execution + SMT (z3), case-split operation histories vs reference model', 'DESIGN.md 6/C04')
